@@ -14,7 +14,8 @@ import (
 	"verif/internal/sut"
 )
 
-// Case: "is" evaluates Expr; "cmp" tests L Op R.
+// Case: "is" evaluates Expr; "cmp" tests L Op R; "lit" evaluates an integer written out in the notation Op
+// (the value is Expr) as an operand in the text itself.
 type Case struct {
 	Kind string   `json:"kind"`
 	Op   string   `json:"op,omitempty"`
@@ -24,6 +25,9 @@ type Case struct {
 }
 
 func (c Case) String() string {
+	if c.Kind == "lit" {
+		return fmt.Sprintf("X is %s + 0, %s =:= %d", literal(c.Op, c.Expr.I), literal(c.Op, c.Expr.I), c.Expr.I)
+	}
 	if c.Kind == "cmp" {
 		return fmt.Sprintf("%s %s %s", c.L, c.Op, c.R)
 	}
@@ -165,9 +169,47 @@ func knownOf(r *h.R, c Case) string {
 }
 
 // check runs one case against the real interpreter and the oracle.
+// literal writes the non-negative integer v in one of the notations of ISO 6.4.4 (decimal, decimal with
+// leading zeros, binary, octal, hexadecimal) or negated by a directly preceding minus sign.
+func literal(notation string, v int64) string {
+	neg := ""
+	if v < 0 {
+		neg = "-"
+	}
+	m := new(big.Int).Abs(big.NewInt(v))
+	switch notation {
+	case "zeros1":
+		return neg + "0" + m.Text(10)
+	case "zeros3":
+		return neg + "000" + m.Text(10)
+	case "bin":
+		return neg + "0b" + m.Text(2)
+	case "oct":
+		return neg + "0o" + m.Text(8)
+	case "hex":
+		return neg + "0x" + m.Text(16)
+	case "HEX":
+		return neg + "0x" + strings.ToUpper(m.Text(16))
+	}
+	return neg + m.Text(10)
+}
+
+var notations = []string{"dec", "zeros1", "zeros3", "bin", "oct", "hex", "HEX"}
+
 func check(c Case) error {
 	p := ip()
 	switch c.Kind {
+	case "lit":
+		txt := literal(c.Op, c.Expr.I)
+		res := p.Query(fmt.Sprintf("X is %s + 0, (%s =:= ? -> E = eq ; E = ne), Y is 0 + %s.", txt, txt, txt), []string{"X", "E", "Y"}, 2, 200000, c.Expr.I)
+		if res.Err != nil || len(res.Answers) != 1 {
+			return fmt.Errorf("%s: %v (%d answers)", c, res.Err, len(res.Answers))
+		}
+		a := res.Answers[0]
+		if a[0].K != rt.Int || a[0].I != c.Expr.I || a[2].K != rt.Int || a[2].I != c.Expr.I || !a[1].IsAtom("eq") {
+			return fmt.Errorf("the operand written %s evaluates to %s / %s and compares %s with %d", txt, a[0], a[2], a[1], c.Expr.I)
+		}
+		return nil
 	case "is":
 		want := evalRef(c.Expr)
 		if want.skip != "" {
@@ -306,6 +348,8 @@ func nontrivial(c Case) (bool, string) {
 		return true // a sub-expression
 	}
 	switch c.Kind {
+	case "lit":
+		return c.Op != "dec", "literal:" + c.Op
 	case "cmp":
 		return big(c.L) || big(c.R), "cmp"
 	default:
@@ -506,7 +550,7 @@ func genNearOverflow() *rapid.Generator[*rt.Term] {
 func TestProp(t *testing.T) {
 	r := h.Start(t, "C07")
 	defer r.Finish(t)
-	r.Rule("(a) the complete boundary grid: every unary functor x every grid value, every binary functor and every comparison x every ordered pair of grid values (integers around 0, 2^31, 2^32, sqrt(2^63), 2^53, 2^62, 2^63 and floats from 5e-324 to max, both signs); (b) rapid-sampled expression trees of depth <= 4 over the same functors with leaves from the grid, uniform int64, raw float bit patterns and boundary neighbours; (c) rapid-generated integer operations whose exact result lies within 3 of +-2^63. Oracle: math/big for integers, the harness's own IEEE operation for floats, big.Float for float-to-integer. Operands are passed as '?' placeholders and answers read structurally. Non-trivial: every operand at or beyond 2^31 in magnitude (or denormal), or a tree of depth > 2; distinct by (functor, operands).",
+	r.Rule("(a) the complete boundary grid: every unary functor x every grid value, every binary functor and every comparison x every ordered pair of grid values (integers around 0, 2^31, 2^32, sqrt(2^63), 2^53, 2^62, 2^63 and floats from 5e-324 to max, both signs); (b) rapid-sampled expression trees of depth <= 4 over the same functors with leaves from the grid, uniform int64, raw float bit patterns and boundary neighbours; (c) rapid-generated integer operations whose exact result lies within 3 of +-2^63; (d) integer operands written out in the query text in every notation of ISO 6.4.4 (decimal, with leading zeros, 0b, 0o, 0x) and negated by a preceding minus: evaluated on both sides of + and compared with the same value passed as a placeholder. Oracle: math/big for integers, the harness's own IEEE operation for floats, big.Float for float-to-integer. Operands are passed as '?' placeholders and answers read structurally. Non-trivial: every operand at or beyond 2^31 in magnitude (or denormal), or a tree of depth > 2; distinct by (functor, operands).",
 		"transcendental functions, ** and ^ on floats, shifts that overflow or by a count outside 0..63, >> of negative non-multiples are outside the property and not asserted",
 		"when both operands of a functor raise an error either error is accepted; min/max on mixed operands that are equal after conversion accept either operand")
 	r.Regress(t)
@@ -574,6 +618,19 @@ func TestProp(t *testing.T) {
 			}
 		}
 		r.Label("sampled_tree")
+		runCase(r, rt_, c)
+	})
+	// (d) integer operands written out in the text, in every notation
+	r.Rapid(t, "literals", r.Pick(20000, 600000), func(rt_ *rapid.T) {
+		v := genInt().Draw(rt_, "v")
+		switch rapid.IntRange(0, 3).Draw(rt_, "small") {
+		case 0:
+			v = int64(rapid.IntRange(0, 4096).Draw(rt_, "sv"))
+		case 1:
+			v = -int64(rapid.IntRange(0, 4096).Draw(rt_, "nv"))
+		}
+		c := Case{Kind: "lit", Op: rapid.SampledFrom(notations).Draw(rt_, "notation"), Expr: rt.I(v)}
+		r.Label("sampled_literal:" + c.Op)
 		runCase(r, rt_, c)
 	})
 	// (c) near-overflow integer operations
